@@ -1,13 +1,10 @@
 From Coq Require Import ZArith List Lia Bool.
+Require Import Actions.
 Import ListNotations.
 Open Scope Z_scope.
 
 (* ---------- ops, actions ---------- *)
 Inductive op := OF (a b : Z) | OB (a b : Z) | ORM (i : Z) | OWM (i : Z) | ODM (i : Z) | OWFM (i : Z) | ODFM (i : Z).
-Inductive storage := RAM | DISK | WORK | NONE.
-Inductive action := Forward (n0 n1 : Z) (wi wa : bool) (st : storage) | Reverse (n1 n0 : Z) (c : bool)
- | Copy (n : Z) (a b : storage) | Move (n : Z) (a b : storage) | EndForward | EndReverse.
-Inductive exn := IndexError | KeyError | InvalidForwardStep | InvalidReverseStep | InvalidActionIndex | InvalidRevolverAction | UnboundLocal | RuntimeError.
 
 Section CONV.
 Variable N : Z.        (* max_n *)
@@ -59,8 +56,8 @@ Definition conv1 (i : nat) (prev : option op) (o : op) (rest : list op) (c : cst
       let c' := {| n_ := n_ c; r_ := r_ c; snaps := snaps c; w_st := dst; w_ics := w_ics c; w_adj := w_adj c; w_n0 := w_n0 c |} in
       match d with
       | ODFM d0 => if d0 =? n0 then inl (c', []) else
-                   match w_n0 c with None => inr UnboundLocal | Some w => if negb (w =? n0) then inr InvalidActionIndex else inl (c', []) end
-      | _ => match w_n0 c with None => inr UnboundLocal | Some w => if negb (w =? n0) then inr InvalidActionIndex else inl (c', []) end
+                   match w_n0 c with None => inr UnboundLocalError | Some w => if negb (w =? n0) then inr InvalidActionIndex else inl (c', []) end
+      | _ => match w_n0 c with None => inr UnboundLocalError | Some w => if negb (w =? n0) then inr InvalidActionIndex else inl (c', []) end
       end
     end
   | ODM _ => if Nat.ltb i 2 then inr InvalidRevolverAction else inl (c, [])
